@@ -581,6 +581,72 @@ def prefixed_pair_rule(ck, facts):
                    "equivalent match)", fn.loc)
 
 
+TURTLE_WS = {0x20, 0x09, 0x0D, 0x0A}
+
+
+def char_predicate_set(facts, pred, fn=None):
+    """For `Iterator::all(pred)`: the set of accepted characters if `pred` is a workspace function that is a plain match on
+    the character; "std:<name>" if it is a std predicate; None otherwise."""
+    arg = 1
+    if pred[0] == "k" and pred[1].get("kind") == "fn":
+        d = pred[1].get("def", "")
+    else:
+        o = fn.origin(pred) if fn is not None else ("?",)
+        if not (o[0] == "agg" and o[1].get("k") == "closure"):
+            return None
+        d, arg = o[1]["def"], 2
+    f = facts.fns.get(d)
+    if f is None:
+        return "std:" + d.split("::")[-1]
+    sw = [b["t"] for b in f.blocks if b["t"]["t"] == "switch" and b["t"].get("ty") == "char"]
+    if len(sw) != 1 or sw[0]["on"][0] == "k" or sw[0]["on"][1] != [arg]:
+        return None
+    t = sw[0]
+
+    def yields(bi):
+        for st in f.blocks[bi]["s"]:
+            if st[0] == "=" and st[1] == [0] and st[2][0] == "use" and st[2][1][0] == "k":
+                return st[2][1][1].get("v") == "1"
+        return None
+    if yields(t["else"]) is not False:
+        return None
+    acc = set()
+    for v, tb in t["vals"]:
+        y = yields(tb)
+        if y is None:
+            return None
+        if y:
+            acc.add(int(v))
+    return acc
+
+
+def indentation_rule(ck, facts):
+    """R4.5: the indentation string is copied at the start of every line of the pretty output: it may only consist of the white
+    space of the Turtle grammar (WS ::= #x20 | #x9 | #xD | #xA).  char::is_whitespace (Unicode) and is_ascii_whitespace (form feed)
+    accept more."""
+    n = 0
+    for name_re, what in ((r"^serializer::turtle::TurtleConfig::with_indentation$", "TurtleConfig::with_indentation"),
+                          (r"^serializer::_pretty::prettify$", "prettify")):
+        fns = facts.find_fns(crate="sophia_turtle", name_re=name_re)
+        if len(fns) != 1:
+            ck.bad("R4.5", "R4.5@%s#anchor" % what, "anchor-missing (%d)" % len(fns))
+            continue
+        fn = fns[0]
+        alls = [t for _, t in fn.calls() if call_name_matches(t, r"iter::Iterator::all$")]
+        if len(alls) != 1:
+            ck.bad("R4.5", "R4.5@%s#anchor" % what, "anchor-missing: the `.chars().all(..)` test of the indentation (%d)" % len(alls), fn.loc)
+            continue
+        n += 1
+        acc = char_predicate_set(facts, alls[0]["args"][1], fn)
+        if isinstance(acc, set) and acc and acc <= TURTLE_WS:
+            ck.ok("R4.5", "%s accepts only %s" % (what, sorted("U+%04X" % c for c in acc)))
+        else:
+            ck.bad("R4.5", "R4.5@%s#indentation-not-turtle-ws" % what, "%s validates the indentation with %s: characters that are not white space "
+                   "in Turtle (U+00A0, U+000C, U+2028 ...) are accepted and copied at the start of every line, and the document does not "
+                   "parse" % (what, acc if isinstance(acc, str) else ("a predicate accepting %s" % sorted("U+%04X" % c for c in acc) if acc else "an unrecognised predicate")), fn.loc)
+    ck.floor("R4.5", "indentation checks", n, 2)
+
+
 def run(ck, facts, tier):
     facts.require_crates(["sophia_turtle", "sophia_api"])
     owners = patterns_by_owner(facts, ["sophia_turtle", "sophia_api"])
@@ -589,6 +655,7 @@ def run(ck, facts, tier):
                   "rio_turtle's Turtle/TriG parser implements the W3C grammar"]
     ck.assumptions = ["the Turtle/TriG reader used for the round trip implements the W3C terminals as transcribed",
                       "heuristics for lists, inlined blank nodes and annotations are not decided (see DESIGN.md C04 ND)"]
+    indentation_rule(ck, facts)
     rl = Relang()
     for n in ("TTL_INTEGER", "TTL_DECIMAL", "TTL_DOUBLE", "TTL_BOOLEAN", "XSD_INTEGER", "XSD_DECIMAL", "XSD_DOUBLE",
               "XSD_BOOLEAN"):
